@@ -23,7 +23,7 @@ def ERROR_TYPE(error_val):
         error.NOT_AVAILABLE: 7,
         error.DATA: 8
     }
-    return errdict.get(error_val, error.NOT_AVAILABLE)
+    return errdict.get(utils.single(error_val), error.NOT_AVAILABLE)
 
 
 @dispatcher.register_for('ISBLANK')
